@@ -23,6 +23,7 @@
  Rp presence      : optional numeric fields are tested with `is None` / membership, never by truthiness (0 is a value).
  R7 span walk     : prev/next_node_generator continue over exactly the (Fused, Fused|fibre) / (Fused|fibre, Fused) class pairs
                     (truth table of the isinstance condition over the element classes), mirror images; find_first/last_node.
+ Ru units         : lengths configured with a unit entry are only used through convert_length(value, same record's length_units).
 """
 import ast
 
@@ -471,6 +472,15 @@ def r7_span_walk(ctx):
     ctx.need('R7.span-walk', 9)
 
 
+def ru_units(ctx):
+    """Ru: lengths configured with a unit entry (Span max_length, fibre length + length_units) are only used through
+    convert_length(value, the same record's length_units)"""
+    from .common import units_rule
+    repo = ctx.repo
+    units_rule(ctx, 'Ru.units', [f for f in repo.module(NW).functions.values()], 'a configuration given in metres would be read as kilometres (fibres never split, or split 1000 times too fine)')
+    ctx.need('Ru.units', 1)
+
+
 from ..memo import rule_for as _memo_rule
 
 RULES_MEMO = ('Rm.memo', _memo_rule('C08', 'a structural decision taken for another element would be reused'))
@@ -481,4 +491,4 @@ from ..presence import rule_for as _presence_rule
 RULES_PRESENCE = ('Rp.presence', _presence_rule('C08', 'a legal zero would be read as missing'))
 
 RULES = [('R1.surgery', r1_surgery), ('R2.edge-weight', r2_weights), ('R3.completeness', r3_completeness), ('R4.split', r4_split),
-         ('R5.order', r5_order), ('R6.every-oms', r6_every_oms), RULES_MEMO, RULES_PRESENCE, ('R7.span-walk', r7_span_walk)]
+         ('R5.order', r5_order), ('R6.every-oms', r6_every_oms), RULES_MEMO, RULES_PRESENCE, ('R7.span-walk', r7_span_walk), ('Ru.units', ru_units)]
